@@ -86,7 +86,8 @@ Fixpoint no_by_without (p : planner) : bool :=
   | PLabelsJoin main fp ts _ => no_by_without main && no_by_without fp && no_by_without ts
   | PLineFilterP _ _ _ main | PLabelFilterP _ main | PParserP _ _ main | PDropP _ main | PMainRenew main _ | PMainOrderBy _ main
   | PMainLimit main | PMainFinalizer main _ _ | PLraP _ _ _ main | PUnwrapP _ main | PUnwrapFnP _ _ main
-  | PAggOpP _ _ main | PComparisonP _ _ main | PTopKP _ _ main | PQuantileP _ _ main | PStepFixP _ main => no_by_without main
+  | PAggOpP _ _ main | PComparisonP _ _ main | PTopKP _ _ main | PQuantileP _ _ main | PStepFixP _ main
+  | PLineFormatP _ main => no_by_without main
   | PByWithoutP _ _ _ _ => false
   end.
 
